@@ -1,5 +1,5 @@
 import Driver.Proto
-import BedVerif.Model.Reader
+import BedVerif.Spec.Text
 /-!
 Driver handlers for C03, C12, C04. Floats are bit patterns (`Nat`); the text codec of std is
 supplied per case by the harness as tables (parse: text → bits; render: bits → text).
@@ -38,12 +38,6 @@ def pRTab : Parser (List (FBits × Bytes)) := many (do let b ← nat; let t ← 
 inductive PRes | ok (r : TRec FBits) | err (cls : String) | panic
 deriving DecidableEq
 
-def errClass : PErr → String
-  | .missingChrom => "missingChrom" | .missingStart => "missingStart" | .invalidStart => "invalidStart"
-  | .missingEnd => "missingEnd" | .invalidEnd => "invalidEnd" | .missingName => "missingName"
-  | .missingScore => "missingScore" | .invalidScore => "invalidScore" | .missingStrand => "missingStrand"
-  | .invalidStrand => "invalidStrand" | .missingValue => "other" | .invalidValue => "other"
-
 def pPRes : Parser PRes := do
   let t ← tok
   if t == "ok" then do let r ← pTRec; pure (.ok r)
@@ -60,41 +54,6 @@ def showPRes : PRes → String
   | .err c => s!"err({c})" | .panic => "panic"
 
 /-! ## C12 -/
-/-- number of BED columns the type requires, and the predicates for its format-specific columns -/
-def bedCols : Ty → Nat
-  | .gr => 3 | .bed n => min n 6 | .narrowPeak => 6 | .broadPeak => 6 | .bgInt => 3 | .bgFloat => 3
-def extraColOk (fc : FloatCodec FBits) : Ty → List (Bytes → Bool)
-  | .narrowPeak => [fun f => (fc.parse f).isSome, fun f => (fc.parse f).isSome, fun f => (fc.parse f).isSome, fun f => (parseUnsigned U64MAX f).isSome]
-  | .broadPeak => [fun f => (fc.parse f).isSome, fun f => (fc.parse f).isSome, fun f => (fc.parse f).isSome]
-  | .bgInt => [fun f => (parseI64 f).isSome]
-  | .bgFloat => [fun f => (fc.parse f).isSome]
-  | _ => []
-def bedColOk (k : Nat) (f : Bytes) : Bool :=
-  match k with
-  | 1 | 2 => (parseUnsigned U64MAX f).isSome
-  | 4 => f == DOT || (parseScore f).isSome
-  | 5 => f == DOT || (parseStrand f).isSome
-  | _ => true
-def bedColErr (k : Nat) (missing : Bool) : String :=
-  match k, missing with
-  | 0, _ => "missingChrom" | 1, true => "missingStart" | 1, false => "invalidStart"
-  | 2, true => "missingEnd" | 2, false => "invalidEnd" | 3, _ => "missingName"
-  | 4, true => "missingScore" | 4, false => "invalidScore" | 5, true => "missingStrand" | _, _ => "invalidStrand"
-
-/-- what the property demands of `parse(line)`: `none` = must be Ok; `some (some c)` = must be the
-error class `c`; `some none` = must be some error -/
-def c12Expect (fc : FloatCodec FBits) (ty : Ty) (line : Bytes) : Option (Option String) :=
-  let cols := match ty with
-    | .gr => splitOn (fun c => c == TAB || c == COLON || c == DASH) line
-    | _ => splitOn (· == TAB) line
-  let nb := bedCols ty
-  match (List.range nb).find? (fun k => match cols[k]? with | none => true | some f => !bedColOk k f) with
-  | some k => some (some (bedColErr k (cols[k]?).isNone))
-  | none =>
-    let ex := extraColOk fc ty
-    if (List.range ex.length).any (fun i => match cols[nb + i]?, ex[i]? with | some f, some okf => !okf f | _, _ => true) then some none
-    else none
-
 def handleC12 (inp obs : List String) : Verdict :=
   let parsed := (do let ty ← pTy; let line ← bytes; let ptab ← pPTab; pure (ty, line, ptab)).run inp
   match parsed, pPRes.run obs with
@@ -102,23 +61,23 @@ def handleC12 (inp obs : List String) : Verdict :=
     let fc := mkCodec ptab []
     let expect := c12Expect fc ty line
     let cols := splitOn (· == TAB) line
-    let nontrivial := expect.isSome || cols.length > bedCols ty + (extraColOk fc ty).length
+    let nontrivial := expect != .accept || cols.length > bedCols ty + (extraColOk fc ty).length
     let classes :=
-      (match expect with | none => ["accepted"] | some (some c) => [c] | some none => ["format-column-error"]) ++
+      (match expect with | .accept => ["accepted"] | .bedError e => [errClass e] | .someError => ["format-column-error"]) ++
       (if cols.length > bedCols ty + (extraColOk fc ty).length then ["extra-columns"] else []) ++
       (if line.isEmpty then ["empty-string"] else []) ++
       (if line.any (· ≥ 128) then ["non-ascii"] else []) ++
       (if cols.length < bedCols ty then ["prefix-of-valid-line"] else [])
     let specOk : Bool := match o, expect with
       | .panic, _ => false
-      | .ok _, none => true
-      | .err _, none => false
-      | .err c, some (some e) => c == e
-      | .err _, some none => true
-      | .ok _, some _ => false
+      | .ok _, .accept => true
+      | .err _, .accept => false
+      | .err c, .bedError e => c == errClass e
+      | .err _, .someError => true
+      | .ok _, _ => false
     if !specOk then
       { kind := "specfail", nontrivial, classes,
-        detail := s!"parse::<{repr ty}>({hexEncode line}) = {showPRes o}; required: {match expect with | none => "Ok" | some (some c) => "Err " ++ c | some none => "Err"}" }
+        detail := s!"parse::<{repr ty}>({hexEncode line}) = {showPRes o}; required: {match expect with | .accept => "Ok" | .bedError e => "Err " ++ errClass e | .someError => "Err"}" }
     else
       let m := modelParse fc ty line
       if m != o then { kind := "diverge", nontrivial, classes, detail := s!"model {showPRes m}, implementation {showPRes o}" }
